@@ -23,7 +23,7 @@ EXPLANATION = (
     "test must pass a line start different from the position; (7) KIND: no container-kind misuse in str_util / util."
     ' Added after seed round 3: (8) within_double_byte tests exactly the byte ranges of the double-byte encodings, compared as integer intervals (`> 0x80` and `>= 0x81` are the same); (9) calc_trim_text searches absolute columns from start_offs and returns a start offset that comes from a column search on every left-trimming path.'
     " Round 4: only get_char_width consults the wcwidth package (C11.3); (10) RANGE - every ordinal decode_one can return is at most 0x10FFFF (bit-arithmetic upper bounds, tightened by the branch's own comparison); (11) scan-exit twins; (12) a distance bound on the continuation-byte scans leaves room for 4 bytes; (13) PAIRLEN in apply_target_encoding."
-    " Round-4 triage: (14) every position move_next_char returns is start + 1, clamped with min(.., end_offs), or the index of a scan bounded by end_offs."
+    " Round-4 triage: (14) every position move_next_char returns is start + 1, clamped with min(.., end_offs), or the index of a scan bounded by end_offs. Round 5: (15) no memoised (lru_cache) function reads a rebindable module global such as the byte-encoding mode; (16) move_prev_char / move_next_char answer for non-UTF-8 bytes only after the within_double_byte() test."
 )
 NOT_DECIDED = "Additivity of widths, offset/column agreement, str-vs-bytes agreement for every code point, the padding flags of trimming, DEC special character mapping values - exhaustive value questions over code points."
 ASSUMPTIONS = ["Canonical codec spellings are taken from the analysing interpreter's codec registry (codecs.lookup(name).name)."]
@@ -552,6 +552,80 @@ def rule_step_in_range(ctx: Ctx, clause: str = "C11.14") -> RuleResult:
     return rr
 
 
+def rule_memo_globals(ctx: Ctx) -> RuleResult:
+    """functools.lru_cache / cache key a result by the call's arguments only.  The width functions answer for the
+    *current* byte encoding, a module global that set_byte_encoding() / set_encoding() rebind: a cached function
+    whose result depends on such a global (directly or through the functions it calls) keeps answering for the
+    encoding that was active at the first call, so calc_width() disagrees with calc_text_pos() / move_next_char()
+    after a switch.  No memoised function of the library may read a rebindable module global."""
+    p = ctx.p
+    rr = RuleResult("MEMO", "C11.15", "no lru_cache/cache-decorated function reads (transitively) a module global that a setter rebinds (`global x`)", floor=2)
+    mutable = {}
+    for mn, m in p.modules.items():
+        g = set()
+        for fi in m.functions:
+            for n in fi.own_nodes():
+                if isinstance(n, ast.Global):
+                    g |= set(n.names)
+        if g:
+            mutable[mn] = g
+    rr.inst("rebindable module globals", True, {k.replace("urwid.", ""): sorted(v) for k, v in mutable.items()})
+
+    def reads(fi, seen, depth=0):
+        if id(fi) in seen or depth > 6:
+            return []
+        seen.add(id(fi))
+        out = []
+        g = mutable.get(fi.module.name, set())
+        local_stores = {n.id for n in fi.own_nodes() if isinstance(n, ast.Name) and isinstance(n.ctx, ast.Store)} | set(fi.all_params)
+        for n in fi.own_nodes():
+            if isinstance(n, ast.Name) and isinstance(n.ctx, ast.Load) and n.id in g and n.id not in local_stores:
+                out.append(f"{short(fi)} reads {n.id}")
+            elif isinstance(n, ast.Call):
+                for t in p.resolve_call(n, fi) or []:
+                    if hasattr(t, "own_nodes"):
+                        out += reads(t, seen, depth + 1)
+        return out
+
+    for fi in p.functions.values():
+        decs = [ast.unparse(d) for d in getattr(fi.node, "decorator_list", [])]
+        if not any(("lru_cache" in d or d.split("(")[0].endswith("cache")) and "cache_widget" not in d for d in decs):
+            continue
+        r = reads(fi, set())
+        rr.inst(short(fi), True, {"memoised": short(fi), "decorator": decs, "reads_rebindable_global": r[:3]})
+        if r:
+            rr.add(finding("MEMO", fi, fi.node, f"{short(fi)}() is memoised by its arguments ({decs[0]}) but its result depends on a module global that a setter rebinds ({r[0]}): after set_encoding() switches the byte encoding the cache keeps returning the widths of the previous encoding, so the width functions disagree with the offset functions on the same bytes", construct=f"memoised function depends on a rebindable global: {r[0]}"))
+    return rr
+
+
+def rule_dbe_consulted(ctx: Ctx) -> RuleResult:
+    """In the double-byte encodings the second byte of a character can be an ASCII-range value (Big5 / GBK / UHC trail
+    bytes 0x40..0x7E): whether a byte is a character of its own is only known to within_double_byte().  In the
+    character-stepping functions every answer for bytes text that is not given on the str or the UTF-8 branch
+    therefore has to come after the wide-mode test that calls within_double_byte() - a shortcut such as
+    `if text[end - 1] < 0x80: return end - 1` lands inside a double-byte character."""
+    p = ctx.p
+    rr = RuleResult("PASS", "C11.16", "move_prev_char / move_next_char answer for non-UTF-8 bytes only after the wide-mode test that consults within_double_byte()", floor=2)
+    for q in (f"{SU}.move_prev_char", f"{SU}.move_next_char"):
+        fi = p.func(q)
+        cfg = cfg_of(fi)
+        tests = [t for t in cfg.nodes if t.kind == "test"]
+        wide = [t for t in tests if any(isinstance(x, ast.Call) and callee_name(x) == "within_double_byte" for x in ast.walk(t.ast))]
+        utf8 = [t for t in tests if any(isinstance(x, ast.Constant) and x.value == "utf8" for x in ast.walk(t.ast))]
+        is_str = [t for t in tests if isinstance(t.ast, ast.Call) and callee_name(t.ast) == "isinstance" and len(t.ast.args) == 2 and ast.unparse(t.ast.args[1]) == "str"]
+        if not wide:
+            raise AnalysisError(f"{q}: the wide-mode test calling within_double_byte() was not found")
+        n_ret = 0
+        for r in [n for n in cfg.nodes if n.kind == "return"]:
+            if any(r not in ExcEngine._reach_without_edge(cfg, t, "T") for t in is_str + utf8):
+                continue  # answered on the str / UTF-8 branch
+            n_ret += 1
+            if not cfg.dominated(r, wide):
+                rr.add(finding("PASS", fi, r.stmt, f"`{norm(r.stmt, 40)}` answers for bytes text before the wide-mode test that calls within_double_byte(): in Big5 / GBK / UHC the trail byte of a double-byte character can be below 0x80 (0x40..0x7E), so a byte-value shortcut steps into the middle of a character while the opposite direction still steps over both bytes", construct=f"{fi.name}: answer before the double-byte test: {norm(r.stmt, 40)}"))
+        rr.inst(short(fi), True, {"function": short(fi), "bytes_answers_outside_str_and_utf8": n_ret, "wide_tests": [norm(t.ast, 70) for t in wide]})
+    return rr
+
+
 def run(ctx: Ctx):
     p = ctx.p
     loops = [f.qualname for f in p.modules[SU].functions if any(isinstance(n, ast.While) for n in f.own_nodes())]
@@ -570,12 +644,16 @@ def run(ctx: Ctx):
         rule_utf8_scan_bound(ctx),
         pairlen.run_pairlen(p, "C11.13", ["urwid.util.apply_target_encoding"], floor=4),
         rule_step_in_range(ctx),
+        rule_memo_globals(ctx),
+        rule_dbe_consulted(ctx),
     ]
 
 
 _S = "urwid/str_util.py"
 _U = "urwid/util.py"
 MUTANTS = [
+    Mut("prev-char-ascii-shortcut", _S, "move_prev_char", "    if _byte_encoding == \"utf8\":\n        o = end_offs - 1", "    if text[end_offs - 1] < 0x80:\n        return end_offs - 1\n    if _byte_encoding == \"utf8\":\n        o = end_offs - 1", "PASS|str_util.move_prev_char"),
+    Mut("calc-width-memoised-across-encodings", _S, "calc_width", "def calc_width(text: str | bytes, start_offs: int, end_offs: int) -> int:", "@functools.lru_cache(maxsize=1024)\ndef calc_width(text: str | bytes, start_offs: int, end_offs: int) -> int:", "MEMO|str_util.calc_width", also=[("import re\n", "import functools\nimport re\n")]),
     Mut("next-char-double-byte-step-unclamped", _S, "move_next_char", "return min(start_offs + 2, end_offs)", "return start_offs + 2", "BOUND|str_util.move_next_char"),
     Mut("twin-next-char-clamp-arg-order", _S, "move_next_char", "return min(start_offs + 2, end_offs)", "return min(end_offs, start_offs + 2)", twin=True),
     Mut("charset-run-of-unstripped-segment", _U, "apply_target_encoding", "cout.append((None, len(sis0)))", "cout.append((None, len(sis[0])))", "PAIRLEN|util.apply_target_encoding"),
